@@ -12,6 +12,7 @@ import (
 	"path/filepath"
 	"sort"
 	"strings"
+	"time"
 )
 
 type vfsInode struct {
@@ -133,11 +134,12 @@ func vfsFileWriteString(f *os.File, s string) (int, error) {
 		case 3:
 			n = len(s) - 1
 		}
-		vf.ino.content += s[:n]
+		vf.ino.content = vfsWriteAt(vf.ino.content, vf.off, s[:n])
 		vfs.sync()
 	}
 	vfs.tick("write " + vf.name)
-	vf.ino.content += s
+	vf.ino.content = vfsWriteAt(vf.ino.content, vf.off, s)
+	vf.off += len(s)
 	vfs.sync()
 	return len(s), nil
 }
@@ -229,4 +231,98 @@ func (v *vfsState) sync() {
 			v.files[p] = ino.content
 		}
 	}
+}
+
+func vfsOpenFile(name string, flag int, perm os.FileMode) (*os.File, error) {
+	_, exists := vfs.files[name]
+	if flag&(os.O_WRONLY|os.O_RDWR|os.O_CREATE) == 0 {
+		return vfsOpen(name)
+	}
+	if !exists {
+		if flag&os.O_CREATE == 0 {
+			return nil, &fs.PathError{Op: "open", Path: name, Err: fs.ErrNotExist}
+		}
+		if !vfs.dirs[filepath.Dir(name)] {
+			return nil, &fs.PathError{Op: "open", Path: name, Err: fs.ErrNotExist}
+		}
+		vfs.tick("create " + name)
+		ino := &vfsInode{}
+		vfs.inodes[name] = ino
+		vfs.files[name] = ""
+		f := &os.File{}
+		vfs.open[f] = &vfsFile{name: name, ino: ino, writing: true}
+		return f, nil
+	}
+	if flag&os.O_EXCL != 0 && flag&os.O_CREATE != 0 {
+		return nil, &fs.PathError{Op: "open", Path: name, Err: fs.ErrExist}
+	}
+	ino := vfs.inodes[name]
+	if ino == nil {
+		ino = &vfsInode{content: vfs.files[name]}
+		vfs.inodes[name] = ino
+	}
+	if flag&os.O_TRUNC != 0 {
+		vfs.tick("truncate " + name)
+		ino.content = ""
+		vfs.sync()
+	}
+	f := &os.File{}
+	vf := &vfsFile{name: name, ino: ino, writing: true}
+	if flag&os.O_APPEND != 0 {
+		vf.off = len(ino.content)
+	}
+	vfs.open[f] = vf
+	return f, nil
+}
+
+// vfsInfo is the fs.FileInfo of the in-memory file system.
+type vfsInfo struct {
+	name string
+	size int64
+	dir  bool
+}
+
+func (i vfsInfo) Name() string { return i.name }
+func (i vfsInfo) Size() int64  { return i.size }
+func (i vfsInfo) Mode() fs.FileMode {
+	if i.dir {
+		return fs.ModeDir | 0775
+	}
+	return 0600
+}
+func (i vfsInfo) ModTime() time.Time { return time.Time{} }
+func (i vfsInfo) IsDir() bool        { return i.dir }
+func (i vfsInfo) Sys() any           { return nil }
+
+func vfsStat(name string) (fs.FileInfo, error) {
+	p := filepath.Clean(name)
+	if vfs.dirs[p] {
+		return vfsInfo{name: filepath.Base(p), dir: true}, nil
+	}
+	if c, ok := vfs.files[name]; ok {
+		return vfsInfo{name: filepath.Base(name), size: int64(len(c))}, nil
+	}
+	return nil, &fs.PathError{Op: "stat", Path: name, Err: fs.ErrNotExist}
+}
+
+func vfsReadFile(name string) ([]byte, error) {
+	c, ok := vfs.files[name]
+	if !ok || vfs.failOpen[name] {
+		return nil, &fs.PathError{Op: "open", Path: name, Err: fs.ErrNotExist}
+	}
+	return []byte(c), nil
+}
+
+func vfsFileSync(f *os.File) error { return nil }
+
+// vfsWriteAt writes s into content at offset off (extending the file as needed).
+func vfsWriteAt(content string, off int, s string) string {
+	if off >= len(content) {
+		return content + s
+	}
+	end := off + len(s)
+	if end >= len(content) {
+		return content[:off] + s
+	}
+	return content[:off] + s + content[end:]
 }
